@@ -189,14 +189,22 @@ impl Rig {
     /// (re)establish the reference state of all writable devices through canonical ports
     fn reset_devices(&mut self) {
         let (pu, pl, ps, pd) = (self.p_ula, self.p_latch, self.p_aysel, self.p_aydata);
+        // a device whose every port is claimed by the extender cannot be reached (nor observed)
+        let ay_ok = !claims(&self.c, ps) && !claims(&self.c, pd);
+        let ula_ok = !claims(&self.c, pu);
+        let latch_ok = !claims(&self.c, pl);
         let m = &mut self.m;
-        for r in 0..16u8 {
-            m.out(ps, r);
-            m.out(pd, 0xB0 | r);
+        if ay_ok {
+            for r in 0..16u8 {
+                m.out(ps, r);
+                m.out(pd, 0xB0 | r);
+            }
+            m.out(ps, AY_SEL);
         }
-        m.out(ps, AY_SEL);
-        m.out(pu, BORDER0);
-        if self.c.is128 {
+        if ula_ok {
+            m.out(pu, BORDER0);
+        }
+        if self.c.is128 && latch_ok {
             m.out(pl, 0);
         }
         if let Some(e) = m.emu.io_extender() {
@@ -209,7 +217,7 @@ impl Rig {
     /// snapshot of every writable device state
     fn state(&mut self) -> (u8, u8, u8, bool, usize) {
         let border = self.m.emu.border_color() as u8;
-        let ay = self.m.inp(self.p_aysel);
+        let ay = if claims(&self.c, self.p_aysel) { AY_VAL } else { self.m.inp(self.p_aysel) };
         let (latch, locked) = self.m.emu.verif_paging();
         let n = self.ext_log_len();
         (border, ay, latch, locked, n)
@@ -359,10 +367,11 @@ fn sweep(ctx: &Ctx, c: &Conf, st: &mut St, rng: &mut Rng) {
             reacted.push(Dev::Ext);
         }
         // would the write be visible at all? (value equal to the current state is not observable)
+        let ay_visible = !claims(c, rig.p_aysel);
         let observable = |d: &Dev| match d {
             Dev::Ula => val & 7 != s0.0,
-            Dev::AySel => (0xB0 | (val & 15)) != s0.1,
-            Dev::AyData => val != s0.1,
+            Dev::AySel => ay_visible && (0xB0 | (val & 15)) != s0.1,
+            Dev::AyData => ay_visible && val != s0.1,
             Dev::Latch => val != s0.2 && !s0.3,
             Dev::Ext => true,
             _ => false,
